@@ -5,10 +5,14 @@ patch = sys.argv[1]
 ov = udiff.apply(open(patch).read(), base.read_text, reverse=False)
 repo = model.Repo(model.REPO_ROOT, overrides=ov, share=base)
 for spec in sys.argv[2:]:
-    cls, meth = spec.split(".")
     out = []
     for r in (base, repo):
-        f = r.method(cls, meth, inherited=False)
+        if ":" in spec:
+            mod, meth = spec.split(":")
+            f = r.module_func(mod, meth)
+        else:
+            cls, meth = spec.split(".")
+            f = r.method(cls, meth, inherited=False)
         fn, used = normal.normalise(r, f, comps=False, ifexp=False)
         params = {"data": summary.Term("data", "bytes")} if meth == "decode" else None
         try:
